@@ -3,7 +3,7 @@ Operator-level independence of stabilizer generators through a triangular family
 single-qubit probes (the rank clause of C01 for the hand-written 2-D lattice models).
 
 `IndepGenerators l sel`: every non-empty duplicate-free sub-family `T` of the generators at the
-locations `sel` has a Pauli operator `d` supported on the qubits that anticommutes with an odd
+locations `sel` has a Pauli operator `d` (a dict with distinct keys) supported on the qubits that anticommutes with an odd
 number of members of `T`.  Anticommutation parity with a product is the sum of the parities
 with the factors, so `d` anticommutes with the product of `T`, which therefore is not the
 identity: no non-trivial product of the selected generators is trivial, i.e. their binary
@@ -19,7 +19,7 @@ namespace Panqec.Lat2D
 
 def IndepGenerators (l : Lattice) (sel : List Coord) : Prop :=
   ∀ T : List Coord, T.Nodup → (∀ t ∈ T, t ∈ sel) → T ≠ [] →
-    ∃ d : Op, (∀ e ∈ d, e.1 ∈ l.qubits ∧ e.2 ≠ Pauli.I) ∧
+    ∃ d : Op, (d.map Prod.fst).Nodup ∧ (∀ e ∈ d, e.1 ∈ l.qubits ∧ e.2 ≠ Pauli.I) ∧
       (T.map fun t => opAntiCount d (l.getStab t)).sum % 2 = 1
 
 structure TriangularProbes (l : Lattice) (sel : List Coord) (probe : Coord → Coord × Pauli)
@@ -80,7 +80,7 @@ theorem indep_of_triangular {l : Lattice} {sel : List Coord} {probe : Coord → 
     {μ : Coord → Nat} (h : TriangularProbes l sel probe μ) : IndepGenerators l sel := by
   intro T hnd hsub hne
   obtain ⟨t0, ht0, hmin⟩ := exists_min μ T hne
-  refine ⟨[probe t0], ?_, ?_⟩
+  refine ⟨[probe t0], by simp, ?_, ?_⟩
   · intro e he
     simp only [List.mem_cons, List.not_mem_nil, or_false] at he
     rw [he]; exact h.on_qubits t0 (hsub t0 ht0)
